@@ -6,6 +6,9 @@ import os
 VERIF = os.path.dirname(os.path.dirname(os.path.abspath(__file__)))
 
 CHECKS = {
+    "C02": ("exact black-box measurement of the map uniform -> state of every sampler (recursive bisection to one ulp; integer bisection over the 2^32 words for the table method), scripted variate sources for the batch call, replay of the same uniforms under 4 orders / fresh samplers",
+            "Held-on-observed: pre-image lengths vs target vector (raw) or independent quadrature cell masses (chains) for all 7 sampler classes incl. n-d; exact never-origin / never-outside / never-zero-probability monitors; batch == single-uniform; history independence.",
+            "Assumes no hidden piece between equal neighbours below the probe spacing; a set of uniforms of measure <= 1e-12 next to 1 is exempt.", "3/C02"),
     "C01": ("record-only hooks on the sampling factory + exact black-box law measurement of on-the-fly samplers; oracle: quadrature of the model density on harness-recomputed cells, corner-sum Levy-copula mass on quadrature tail integrals",
             "Held-on-observed: every state rate handed to / realised by every accepted sampling method compared with an independent mass, on all grid constructors, levels 0..5, 1-d families and 2-d/3-d copulas; tiling and intensity monitors.",
             "Trusts scipy quad and the copula callable (C11); finite-variation margins only for copulas in this check.", "3/C01"),
